@@ -21,7 +21,11 @@ TYPE_EXPR = {"int": "7", "float": "7.5", "str": "'s'", "bool": "True", "list": "
 TYPE_DISTRACT = {"int": "True", "float": "7", "str": "7", "bool": "1", "list": "(a, b)", "dict": "{a, b}"}
 AST_STMT = {"For": "for i in xs:\n    pass", "While": "while a:\n    break", "If": "if a:\n    pass",
             "Return": None, "FunctionDef": "def g%d():\n    pass"}
-AST_EXPR = {"ListComp": "[i for i in xs]", "Lambda": "(lambda z: z)"}
+AST_EXPR = {"ListComp": "[i for i in xs]", "Lambda": "(lambda z: z)",
+            # operator CLASSES as node kinds: CPython's parser shares ONE node object per operator class, a plain walk
+            # meets it once per occurrence
+            "Add": "a + b", "Lt": "a < b", "And": "a and b", "USub": "-a"}
+OPERATOR_KINDS = {"Add", "Lt", "And", "USub"}
 
 
 def occurrence(feature, k):
@@ -136,6 +140,12 @@ def oracle(tree, feature):
                     lines.append(node.lineno)
             elif isinstance(node, ast.Constant) and type(node.value) is t:
                 lines.append(node.lineno)
+        elif kind == "ast" and name in OPERATOR_KINDS:
+            # operator nodes carry no position: the occurrence is counted where its expression stands
+            if isinstance(node, (ast.BinOp, ast.UnaryOp, ast.BoolOp)) and type(node.op).__name__ == name:
+                lines.append(node.lineno)
+            elif isinstance(node, ast.Compare):
+                lines += [node.lineno for op in node.ops if type(op).__name__ == name]
         elif kind == "ast":
             if type(node).__name__ == name:
                 lines.append(node.lineno)
